@@ -2,6 +2,7 @@
 docs/using-zconfig.rst 'Writing Configuration Schema', statements of C02,
 C10, C11, C12).  PARSED, NEVER EXECUTED."""
 import os
+import sys
 
 import ZConfig
 from ZConfig import info
@@ -371,3 +372,59 @@ def endElement(self, name):
         data = ''.join(self._cdata).strip()
         self._cdata = None
         getattr(self, "characters_" + name)(data)
+
+
+def start_schema(self, attrs):
+    self.push_prefix(attrs)
+    handler = self.get_handler(attrs)
+    keytype, valuetype, datatype = self.get_sect_typeinfo(attrs)
+    if self._extending_parser is None:
+        self._schema = info.SchemaType(keytype, valuetype, datatype, handler,
+                                       self._url, self._registry)
+    else:
+        self._schema = self._extending_parser._schema
+    self._stack = [self._schema]
+    if "extends" in attrs:
+        sources = attrs["extends"].split()
+        sources.reverse()
+        for src in sources:
+            src = url.urljoin(self._url, src)
+            src, fragment = url.urldefrag(src)
+            if fragment:
+                self.error("schema extends may not include a fragment")
+            self.extendSchema(src)
+        if self._base_keytypes and "keytype" not in attrs:
+            keytype = self._base_keytypes[0]
+            for kt in self._base_keytypes[1:]:
+                if kt is not keytype:
+                    self.error("conflicting keytypes")
+        if self._base_datatypes and "datatype" not in attrs:
+            datatype = self._base_datatypes[0]
+            for dt in self._base_datatypes[1:]:
+                if dt is not datatype:
+                    self.error("conflicting datatypes")
+    self._schema.keytype = keytype
+    self._schema.valuetype = valuetype
+    self._schema.datatype = datatype
+    if self._extending_parser is not None:
+        self._extending_parser._base_keytypes.append(keytype)
+        self._extending_parser._base_datatypes.append(datatype)
+
+
+def schemaComponentSource(self, package, filename):
+    parts = package.split(".")
+    if not parts:
+        raise ZConfig.SchemaError("illegal schema component name")
+    if "" in parts:
+        raise ZConfig.SchemaError("illegal schema component name")
+    filename = filename or "component.xml"
+    try:
+        __import__(package)
+    except ImportError as e:
+        raise ZConfig.SchemaResourceError("could not load package",
+                                          filename=filename, package=package)
+    pkg = sys.modules[package]
+    if not hasattr(pkg, "__path__"):
+        raise ZConfig.SchemaResourceError("not a package", filename=filename,
+                                          package=package)
+    return f"package:{package}:{filename}"
